@@ -1,7 +1,7 @@
 (* C05 — pdag_to_dag returns a consistent extension exactly when one exists. *)
 From Coq Require Import List Arith.
-From PG Require Import Base.ListSet Graph.MGraph C04.Dag C04.Model C04.Refl C04.Bounded_4 C05.Model C05.Spec C05.Proofs
-  C05.Refuted C05.Bounded_4.
+From PG Require Import Base.ListSet Graph.MGraph C04.Dag C04.Model C04.Spec C04.Refl C04.Bounded_4 C04.Bounded_5
+  C05.Model C05.Spec C05.Proofs C05.Refuted C05.Roundtrip C05.Bounded_5.
 Import ListNotations.
 
 (* unbounded: whatever the model returns is a consistent extension *)
@@ -17,7 +17,7 @@ Print Assumptions pdag_complete.
 (* unbounded: fuel = |V| never decides *)
 Theorem pdag_total : forall qual p fuel, length (V p) <= fuel ->
   pdag_loop qual fuel p = pdag_loop qual (length (V p)) p.
-Proof. intros qual p fuel H. apply pdag_loop_fuel; [exact H|apply le_n]. Qed.
+Proof. exact pdag_total_proof. Qed.
 Print Assumptions pdag_total.
 
 (* the clique test of the current code is incomplete *)
@@ -34,11 +34,19 @@ Theorem meq_checker_correct : forall d1 d2, is_dag d1 -> is_dag d2 -> (meqb d1 d
 Proof. exact meqb_spec. Qed.
 Print Assumptions meq_checker_correct.
 
-(* kernel computation: the two consequences for all labelled DAGs on <= 4 nodes and every topological order *)
-Theorem roundtrip_bounded_4 : forall n es ord, n <= 4 -> In es (dags n) ->
+(* UNBOUNDED consequence: for every DAG and every topological order, pdag_to_dag (dag_to_cpdag d) succeeds, is a consistent
+   extension of the CPDAG, and is Markov equivalent to d *)
+Theorem roundtrip_equiv : forall d ord, is_dag d -> topo d ord ->
+  exists cg d', cpdag_graph d ord = Some cg /\ pdag_model cg = Some d' /\ consistent_ext cg d' /\ meq d d'.
+Proof. exact roundtrip_equiv_proof. Qed.
+Print Assumptions roundtrip_equiv.
+
+(* kernel computation (8 shards, ~6 CPU-min): both consequences, incl. pdag_to_cpdag (cpdag d) = cpdag d, for every DAG of the
+   complete enumeration of the DAGs on 0..n-1, n <= 5 (29 281 for n = 5), and EVERY topological order *)
+Theorem roundtrip_bounded_5 : forall n es ord, n <= 5 -> In es (dagsF n) ->
   let d := mkd (seq 0 n) es in topob d ord = true -> roundtrip_stmt d ord.
-Proof. exact roundtrip_bounded_4_proof. Qed.
-Print Assumptions roundtrip_bounded_4.
+Proof. exact roundtrip_bounded_5_proof. Qed.
+Print Assumptions roundtrip_bounded_5.
 
 (* hypotheses satisfiable on non-trivial inputs: an extendable PDAG, and one without extension (the 4-cycle a-b-c-d-a with a v-structure forced) *)
 Example pdag_example :
